@@ -76,7 +76,9 @@ Inductive ann :=
 | AOther (txt : string).
 
 Inductive qref := QVar (v : string) | QConst (c : string).       (* value of the `query=` keyword *)
-Inductive rexpr := RValidate (cls : string) | RAttr (e : rexpr) (attr : string) | ROther (txt : string).
+(* RCallOn n txt: any other call `n.attr(...)` on a plain name, e.g. `self.get_data(response)` *)
+Inductive rexpr := RValidate (cls : string) | RAttr (e : rexpr) (attr : string) | RCallOn (n : string) (txt : string)
+                | ROther (txt : string).
 
 Inductive stmt :=
 | SImport (level : nat) (module : string) (name : string)         (* from <level dots><module> import name *)
@@ -418,7 +420,9 @@ Definition fr_param (ic : list (string * string)) (p : param) : param * list str
 Definition fr_class_of (e : rexpr) : option string :=
   match e with
   | RValidate cls => Some cls
+  | RCallOn n _ => Some n
   | RAttr (RValidate cls) _ => Some cls
+  | RAttr (RCallOn n _) _ => Some n
   | _ => None
   end.
 
@@ -429,7 +433,10 @@ Definition fr_last_class (body : list stmt) : option string :=
   | _ => None
   end.
 
-Definition fr_method (ic : list (string * string)) (m : pmethod)
+(* lenient = false: the code as found, `self.imported_classes[name]` raises KeyError for a call on a name that is
+   not a package import (finding C15-forward-refs-custom-operations); lenient = true: such a call is skipped
+   (fixes/C15-forward-refs-custom-operations.diff).  The tie says which one the tree implements. *)
+Definition fr_method (lenient : bool) (ic : list (string * string)) (m : pmethod)
   : option (pmethod * list string (*annotation names*) * list string (*imported in method*)) :=
   let ps := map (fr_param ic) (m_params m) in
   let '(ret, rnames) := match m_returns m with
@@ -442,17 +449,17 @@ Definition fr_method (ic : list (string * string)) (m : pmethod)
   | None => Some (m1, names, [])
   | Some cls =>
       match lookup cls ic with
-      | None => None                                            (* KeyError *)
+      | None => if lenient then Some (m1, names, []) else None  (* KeyError *)
       | Some from => Some (with_ret_body m1 ret (SImport 1 from cls :: m_body m), names, [cls])
       end
   end.
 
-Fixpoint fr_methods (ic : list (string * string)) (ms : list pmethod)
+Fixpoint fr_methods (lenient : bool) (ic : list (string * string)) (ms : list pmethod)
   : option (list pmethod * list string * list string) :=
   match ms with
   | [] => Some ([], [], [])
   | m :: r =>
-      match fr_method ic m, fr_methods ic r with
+      match fr_method lenient ic m, fr_methods lenient ic r with
       | Some (m', a, b), Some (r', a2, b2) => Some (m' :: r', a ++ a2, b ++ b2)
       | _, _ => None
       end
@@ -484,9 +491,9 @@ Definition fr_tc_imports (ic : list (string * string)) (types : list string) : o
                | _, _ => None
                end) types (Some []).
 
-Definition fr_client (c : cmodule) : option cmodule :=
+Definition fr_client (lenient : bool) (c : cmodule) : option cmodule :=
   let ic := fr_imported (cm_imports c) in
-  match fr_methods ic (cm_methods c) with
+  match fr_methods lenient ic (cm_methods c) with
   | None => None
   | Some (ms, ann_names, in_method) =>
       let types := dedup ann_names in
@@ -504,9 +511,9 @@ Definition fr_client (c : cmodule) : option cmodule :=
       end
   end.
 
-Definition fr_step (h : hook) (o : obj) : option obj :=
+Definition fr_step (lenient : bool) (h : hook) (o : obj) : option obj :=
   match h, o with
-  | HClientModule, OClient c => match fr_client c with Some c' => Some (OClient c') | None => None end
+  | HClientModule, OClient c => match fr_client lenient c with Some c' => Some (OClient c') | None => None end
   | _, _ => Some o
   end.
 
@@ -521,7 +528,7 @@ Definition nr_step (h : hook) (o : obj) : obj :=
 Inductive plugin :=
 | PShorter (st : sh_state)
 | PExtract (st : ex_state)
-| PForward
+| PForward (lenient : bool)
 | PNoReimports
 | PIdentity.            (* a plugin class overriding no hook: Plugin's defaults return their argument *)
 
@@ -529,7 +536,7 @@ Definition step (p : plugin) (h : hook) (o : obj) : option (plugin * obj) :=
   match p with
   | PShorter st => match sh_step st h o with Some (st', o') => Some (PShorter st', o') | None => None end
   | PExtract st => match ex_step st h o with Some (st', o') => Some (PExtract st', o') | None => None end
-  | PForward => match fr_step h o with Some o' => Some (p, o') | None => None end
+  | PForward l => match fr_step l h o with Some o' => Some (p, o') | None => None end
   | PNoReimports => Some (p, nr_step h o)
   | PIdentity => Some (p, o)
   end.
@@ -554,7 +561,8 @@ Record uop := { uo_name : string; uo_kind : opkind; uo_str : string;
                 uo_classes : list pclass; uo_imports : list imp; uo_method : pmethod }.
 Record upackage := { u_ops : list uop;
                      u_fragment_classes : list pclass;
-                     u_client : cmodule;                    (* imports / class; its methods are the uo_method's *)
+                     u_client : cmodule;   (* imports / class; cm_methods = the methods that are NOT operations
+                                              (enable_custom_operations), appended after the operations' *)
                      u_init : initmod }.
 Record package := { pk_client : cmodule; pk_init : option initmod;
                     pk_operations : list (list (string * string)) }.  (* one module per ExtractOperations instance that wrote *)
@@ -618,7 +626,8 @@ Definition generate (ps : list plugin) (u : upackage) : option package :=
           match apply_hook ps2 HFragmentsModule (OFragmentsModule (map c_name (u_fragment_classes u))) with
           | None => None
           | Some (ps3, _) =>
-              match apply_hook ps3 HClientModule (OClient (with_imports_methods (u_client u) (cm_imports (u_client u)) ms)) with
+              match apply_hook ps3 HClientModule (OClient (with_imports_methods (u_client u) (cm_imports (u_client u))
+                                                                              (ms ++ cm_methods (u_client u)))) with
               | Some (ps4, OClient c) =>
                   match apply_hook ps4 HInitModule (OInit (Some (u_init u))) with
                   | Some (ps5, OInit i) =>
@@ -679,6 +688,7 @@ Fixpoint eval_r (V : string -> option pyval) (e : rexpr) : option pyval :=
   | RAttr e' f => match eval_r V e' with
                   | Some (VObj attrs) => lookup f attrs
                   | _ => None end
+  | RCallOn _ _ => None
   | ROther _ => None
   end.
 
@@ -730,6 +740,7 @@ Fixpoint dR (fuel : nat) (e : sexp) : option rexpr :=
       | L [A "validate"; A c] => Some (RValidate c)
       | L [A "attr"; x; A f] => match dR k x with Some r => Some (RAttr r f) | None => None end
       | L [A "other"; A t] => Some (ROther t)
+      | L [A "callon"; A n; A t] => Some (RCallOn n t)
       | _ => None
       end
   end.
@@ -738,6 +749,7 @@ Fixpoint sR (r : rexpr) : sexp :=
   | RValidate c => L [A "validate"; A c]
   | RAttr x f => L [A "attr"; sR x; A f]
   | ROther t => L [A "other"; A t]
+  | RCallOn n t => L [A "callon"; A n; A t]
   end.
 
 Definition dStmt (e : sexp) : option stmt :=
@@ -863,7 +875,8 @@ Definition dPlugin (e : sexp) : option plugin :=
       Some (PShorter {| sh_fragments_module := fm; sh_classes := []; sh_imported := []; sh_extended := [] |})
   | L [A "extract"; A om] =>
       Some (PExtract {| ex_module := om; ex_gqls := []; ex_vars := []; ex_written := false |})
-  | A "forward" => Some PForward
+  | A "forward" => Some (PForward false)
+  | A "forward-lenient" => Some (PForward true)
   | A "noreimports" => Some PNoReimports
   | A "identity" => Some PIdentity
   | _ => None
